@@ -124,11 +124,22 @@ func (g *c06Gen) populate(b *c06Book, i int, tables bool, far bool) {
 		}
 		return x1, y1, x2, y2
 	}
+	var merged [][4]int
 	for k := rng.Intn(3); k > 0; k-- {
 		x1, y1, x2, y2 := rect()
 		if x1 == x2 && y1 == y2 {
 			x2++
 		}
+		overlap := false
+		for _, m := range merged {
+			if x1 <= m[2] && m[0] <= x2 && y1 <= m[3] && m[1] <= y2 {
+				overlap = true // overlapping merges are C03's subject (MergeCell fuses them)
+			}
+		}
+		if overlap {
+			continue
+		}
+		merged = append(merged, [4]int{x1, y1, x2, y2})
 		b.api(r, "merge", si, c06Cell(x1, y1), c06Cell(x2, y2))
 	}
 	for k := rng.Intn(3); k > 0; k-- {
@@ -451,15 +462,60 @@ func (g *c06Gen) oracleInsRm(b *c06Book, i int) {
 		return
 	}
 	after := t.allDumps()
+	lim := c06MaxCols
+	if rows {
+		lim = c06TotalRows
+	}
 	for j := range before {
-		if ch := c06DiffWords(before[j], after[j], true); ch != "" {
-			where := "same-sheet"
-			if j != i {
-				where = "other-sheet"
+		ch := c06DiffWords(before[j], after[j], true)
+		if ch == "" {
+			continue
+		}
+		if j != i {
+			r.Fail("insrm:"+kind+":other-sheet", fmt.Sprintf("insert %d %s at %d then remove on %s changed sheet %s", n, kind, num, sh, c06Sheet(j)), 0,
+				b.replayText()+fmt.Sprintf("\n# then: insert %d %s at %d on %s, remove %d times", n, kind, num, sh, n))
+			continue
+		}
+		for _, letter := range ch {
+			cause := "other"
+			atLimit := func(q c06Rect) bool {
+				_, hi := q.y1, q.y2
+				if !rows {
+					hi = q.x2
+				}
+				return hi+n > lim
 			}
-			r.Fail("insrm:"+kind+":"+ch+":"+where, fmt.Sprintf("insert %d %s at %d then remove %d times on %s does not restore sheet %s\n#   before: %s\n#   after:  %s",
-				n, kind, num, n, sh, c06Sheet(j), c06Trunc(before[j], 600), c06Trunc(after[j], 600)), 0,
-				t.replayText()+fmt.Sprintf("\n# then: insert %d %s at %d, remove %d times", n, kind, num, n))
+			switch letter {
+			case 'V':
+				for _, it := range d.dvs {
+					for _, q := range it.rects {
+						if atLimit(q) {
+							cause = "range-at-limit"
+						}
+					}
+				}
+			case 'F':
+				for _, it := range d.cfs {
+					for _, q := range it.rects {
+						if atLimit(q) {
+							cause = "range-at-limit"
+						}
+					}
+				}
+			case 'C':
+				for _, c := range d.cols {
+					if !rows && c.max+n > lim {
+						cause = "range-at-limit"
+					}
+				}
+			case 'R':
+				if len(d.tables) > 0 {
+					continue // adjustTable rewrites header cells (setTableColumns); tables are compared in their own scenarios
+				}
+			}
+			r.Fail("insrm:"+kind+":"+string(letter)+":"+cause, fmt.Sprintf("insert %d %s at %d then remove %d times on %s does not restore the sheet (dump word %c)\n#   before: %s\n#   after:  %s",
+				n, kind, num, n, sh, letter, c06Trunc(before[j], 600), c06Trunc(after[j], 600)), 0,
+				b.replayText()+fmt.Sprintf("\n# then: insert %d %s at %d on %s, remove %d times", n, kind, num, sh, n))
 		}
 	}
 }
@@ -472,9 +528,34 @@ type c06RowObs struct {
 	merges []string
 }
 
-func c06ObsRow(f *xl.File, sh string, row, ncols int) c06RowObs {
+// cells inside a merged range other than its top-left cell: the getters redirect them to the top-left cell
+func c06Covered(f *xl.File, sh string) map[[2]int]bool {
+	out := map[[2]int]bool{}
+	ms, _ := f.GetMergeCells(sh)
+	for _, m := range ms {
+		x1, y1, e1 := xl.CellNameToCoordinates(m.GetStartAxis())
+		x2, y2, e2 := xl.CellNameToCoordinates(m.GetEndAxis())
+		if e1 != nil || e2 != nil || (x2-x1+1)*(y2-y1+1) > 20000 {
+			continue
+		}
+		for x := x1; x <= x2; x++ {
+			for y := y1; y <= y2; y++ {
+				if x != x1 || y != y1 {
+					out[[2]int{x, y}] = true
+				}
+			}
+		}
+	}
+	return out
+}
+
+func c06ObsRow(f *xl.File, sh string, row, ncols int, skip map[[2]int]bool) c06RowObs {
 	o := c06RowObs{}
 	for c := 1; c <= ncols; c++ {
+		if skip[[2]int{c, row}] {
+			o.vals = append(o.vals, "merged")
+			continue
+		}
 		cell := c06Cell(c, row)
 		v, _ := f.GetCellValue(sh, cell)
 		fm, _ := f.GetCellFormula(sh, cell)
@@ -489,8 +570,13 @@ func c06ObsRow(f *xl.File, sh string, row, ncols int) c06RowObs {
 }
 
 func (a c06RowObs) eq(b c06RowObs, attrs bool) bool {
-	if strings.Join(a.vals, "|") != strings.Join(b.vals, "|") {
+	if len(a.vals) != len(b.vals) {
 		return false
+	}
+	for i := range a.vals {
+		if a.vals[i] != b.vals[i] && a.vals[i] != "merged" && b.vals[i] != "merged" {
+			return false
+		}
 	}
 	return !attrs || (a.ht == b.ht && a.vis == b.vis && a.ol == b.ol)
 }
@@ -528,8 +614,9 @@ func (g *c06Gen) oracleDup(b *c06Book, i int) {
 	}
 	maxRow := d.n + 3
 	var before []c06RowObs
+	cov := c06Covered(t.f, sh)
 	for k := 1; k <= maxRow; k++ {
-		before = append(before, c06ObsRow(t.f, sh, k, ncols))
+		before = append(before, c06ObsRow(t.f, sh, k, ncols, cov))
 	}
 	mBefore, _ := t.f.GetMergeCells(sh)
 	others := t.allDumps()
@@ -540,7 +627,7 @@ func (g *c06Gen) oracleDup(b *c06Book, i int) {
 		st = c06Safe(func() error { return t.f.DuplicateRowTo(sh, row, row2) })
 	}
 	r.Stat("oracle:dup:" + st)
-	replay := t.replayText() + fmt.Sprintf("\n# then: DuplicateRowTo(%s, %d, %d)", sh, row, row2)
+	replay := b.replayText() + fmt.Sprintf("\n# then: DuplicateRowTo(%s, %d, %d)", sh, row, row2)
 	if st != "ok" {
 		if st == "PANIC" {
 			r.Fail("dup:panic", fmt.Sprintf("DuplicateRowTo(%s,%d,%d) panicked", sh, row, row2), 0, replay)
@@ -548,8 +635,9 @@ func (g *c06Gen) oracleDup(b *c06Book, i int) {
 		return
 	}
 	var after []c06RowObs
+	cov = c06Covered(t.f, sh)
 	for k := 1; k <= maxRow+1; k++ {
-		after = append(after, c06ObsRow(t.f, sh, k, ncols))
+		after = append(after, c06ObsRow(t.f, sh, k, ncols, cov))
 	}
 	fail := func(what string, k int) {
 		r.Fail("dup:"+what, fmt.Sprintf("DuplicateRowTo(%s,%d,%d): %s (row %d)", sh, row, row2, what, k), 0, replay)
@@ -647,13 +735,20 @@ func (g *c06Gen) oracleAPI(b *c06Book, line string) {
 	}
 	observe := func(f *xl.File, R, C int) obs {
 		ob := obs{map[[2]int]string{}, map[int]string{}, map[int]string{}}
+		cov := c06Covered(f, sh)
 		for rr := 1; rr <= R; rr++ {
 			for c := 1; c <= C; c++ {
+				if cov[[2]int{c, rr}] {
+					continue
+				}
 				cell := c06Cell(c, rr)
 				v, _ := f.GetCellValue(sh, cell)
 				fm, _ := f.GetCellFormula(sh, cell)
 				st, _ := f.GetCellStyle(sh, cell)
-				if v != "" || fm != "" || st != 0 {
+				// GetCellStyle falls back to the row/column style for cells without one: only
+				// cells with content are compared through the getters (styled empty cells are
+				// covered by the dump-level comparison)
+				if v != "" || fm != "" {
 					ob.cell[[2]int{c, rr}] = fmt.Sprintf("%q/%q/%d", v, fm, st)
 				}
 			}
